@@ -372,7 +372,8 @@ fn c12_q_i8_lerp_f64_14of8() { int_lerp_at!(i8, f64, 3, 14) }
 #[kani::proof]
 fn c12_q_i8_lerp_f64_16of8() { int_lerp_at!(i8, f64, 3, 16) }
 
-// ---- thorough: the odd k/8 with f64; the odd k/16 in [-16,32] with f32 (u8) ; a 16-bit selection ----
+// ---- thorough: the odd k/8 with f64; the odd k/16 in [-16,32] with f32 (u8); 16-bit: k/8 for k in {-8,0,4,8,16}
+// (decided in 2-660 s) and ONE odd numerator (u16, 5/8) kept as the honest attempt: -3/8, 5/8, 13/8 hit the 900 s cap ----
 /// K: fns=u8::lerp_unclamped,u8::lerp_unclamped_precise,<&u8>::lerp_unclamped,<&u8>::lerp_precise (Lerp<f64>) | inst=u8, factor f64 = -7/8 | bound=ALL (from,to) pairs, one concrete factor
 /// K: asserts=result = round_half_away((8*from + -7*(to-from))/8) whenever that fits u8 (oracle in i32); fast, precise, by-reference; clamped form = value at clamp01(factor); no panic | cap=900
 #[kani::proof]
@@ -569,10 +570,6 @@ fn c12_t_u8_lerp_f32_31of16() { int_lerp_at!(u8, f32, 4, 31) }
 /// K: asserts=result = round_half_away((8*from + -8*(to-from))/8) whenever that fits u16 (oracle in i32); fast, precise, by-reference; clamped form = value at clamp01(factor); no panic | cap=900
 #[kani::proof]
 fn c12_t_u16_lerp_f32_m8of8() { int_lerp_at!(u16, f32, 3, -8) }
-/// K: fns=u16::lerp_unclamped,u16::lerp_unclamped_precise,<&u16>::lerp_unclamped,<&u16>::lerp_precise (Lerp<f32>) | inst=u16, factor f32 = -3/8 | bound=ALL (from,to) pairs, one concrete factor
-/// K: asserts=result = round_half_away((8*from + -3*(to-from))/8) whenever that fits u16 (oracle in i32); fast, precise, by-reference; clamped form = value at clamp01(factor); no panic | cap=900
-#[kani::proof]
-fn c12_t_u16_lerp_f32_m3of8() { int_lerp_at!(u16, f32, 3, -3) }
 /// K: fns=u16::lerp_unclamped,u16::lerp_unclamped_precise,<&u16>::lerp_unclamped,<&u16>::lerp_precise (Lerp<f32>) | inst=u16, factor f32 = 0/8 | bound=ALL (from,to) pairs, one concrete factor
 /// K: asserts=result = round_half_away((8*from + 0*(to-from))/8) whenever that fits u16 (oracle in i32); fast, precise, by-reference; clamped form = value at clamp01(factor); no panic | cap=900
 #[kani::proof]
@@ -589,10 +586,6 @@ fn c12_t_u16_lerp_f32_5of8() { int_lerp_at!(u16, f32, 3, 5) }
 /// K: asserts=result = round_half_away((8*from + 8*(to-from))/8) whenever that fits u16 (oracle in i32); fast, precise, by-reference; clamped form = value at clamp01(factor); no panic | cap=900
 #[kani::proof]
 fn c12_t_u16_lerp_f32_8of8() { int_lerp_at!(u16, f32, 3, 8) }
-/// K: fns=u16::lerp_unclamped,u16::lerp_unclamped_precise,<&u16>::lerp_unclamped,<&u16>::lerp_precise (Lerp<f32>) | inst=u16, factor f32 = 13/8 | bound=ALL (from,to) pairs, one concrete factor
-/// K: asserts=result = round_half_away((8*from + 13*(to-from))/8) whenever that fits u16 (oracle in i32); fast, precise, by-reference; clamped form = value at clamp01(factor); no panic | cap=900
-#[kani::proof]
-fn c12_t_u16_lerp_f32_13of8() { int_lerp_at!(u16, f32, 3, 13) }
 /// K: fns=u16::lerp_unclamped,u16::lerp_unclamped_precise,<&u16>::lerp_unclamped,<&u16>::lerp_precise (Lerp<f32>) | inst=u16, factor f32 = 16/8 | bound=ALL (from,to) pairs, one concrete factor
 /// K: asserts=result = round_half_away((8*from + 16*(to-from))/8) whenever that fits u16 (oracle in i32); fast, precise, by-reference; clamped form = value at clamp01(factor); no panic | cap=900
 #[kani::proof]
@@ -601,10 +594,6 @@ fn c12_t_u16_lerp_f32_16of8() { int_lerp_at!(u16, f32, 3, 16) }
 /// K: asserts=result = round_half_away((8*from + -8*(to-from))/8) whenever that fits i16 (oracle in i32); fast, precise, by-reference; clamped form = value at clamp01(factor); no panic | cap=900
 #[kani::proof]
 fn c12_t_i16_lerp_f32_m8of8() { int_lerp_at!(i16, f32, 3, -8) }
-/// K: fns=i16::lerp_unclamped,i16::lerp_unclamped_precise,<&i16>::lerp_unclamped,<&i16>::lerp_precise (Lerp<f32>) | inst=i16, factor f32 = -3/8 | bound=ALL (from,to) pairs, one concrete factor
-/// K: asserts=result = round_half_away((8*from + -3*(to-from))/8) whenever that fits i16 (oracle in i32); fast, precise, by-reference; clamped form = value at clamp01(factor); no panic | cap=900
-#[kani::proof]
-fn c12_t_i16_lerp_f32_m3of8() { int_lerp_at!(i16, f32, 3, -3) }
 /// K: fns=i16::lerp_unclamped,i16::lerp_unclamped_precise,<&i16>::lerp_unclamped,<&i16>::lerp_precise (Lerp<f32>) | inst=i16, factor f32 = 0/8 | bound=ALL (from,to) pairs, one concrete factor
 /// K: asserts=result = round_half_away((8*from + 0*(to-from))/8) whenever that fits i16 (oracle in i32); fast, precise, by-reference; clamped form = value at clamp01(factor); no panic | cap=900
 #[kani::proof]
@@ -613,18 +602,10 @@ fn c12_t_i16_lerp_f32_0of8() { int_lerp_at!(i16, f32, 3, 0) }
 /// K: asserts=result = round_half_away((8*from + 4*(to-from))/8) whenever that fits i16 (oracle in i32); fast, precise, by-reference; clamped form = value at clamp01(factor); no panic | cap=900
 #[kani::proof]
 fn c12_t_i16_lerp_f32_4of8() { int_lerp_at!(i16, f32, 3, 4) }
-/// K: fns=i16::lerp_unclamped,i16::lerp_unclamped_precise,<&i16>::lerp_unclamped,<&i16>::lerp_precise (Lerp<f32>) | inst=i16, factor f32 = 5/8 | bound=ALL (from,to) pairs, one concrete factor
-/// K: asserts=result = round_half_away((8*from + 5*(to-from))/8) whenever that fits i16 (oracle in i32); fast, precise, by-reference; clamped form = value at clamp01(factor); no panic | cap=900
-#[kani::proof]
-fn c12_t_i16_lerp_f32_5of8() { int_lerp_at!(i16, f32, 3, 5) }
 /// K: fns=i16::lerp_unclamped,i16::lerp_unclamped_precise,<&i16>::lerp_unclamped,<&i16>::lerp_precise (Lerp<f32>) | inst=i16, factor f32 = 8/8 | bound=ALL (from,to) pairs, one concrete factor
 /// K: asserts=result = round_half_away((8*from + 8*(to-from))/8) whenever that fits i16 (oracle in i32); fast, precise, by-reference; clamped form = value at clamp01(factor); no panic | cap=900
 #[kani::proof]
 fn c12_t_i16_lerp_f32_8of8() { int_lerp_at!(i16, f32, 3, 8) }
-/// K: fns=i16::lerp_unclamped,i16::lerp_unclamped_precise,<&i16>::lerp_unclamped,<&i16>::lerp_precise (Lerp<f32>) | inst=i16, factor f32 = 13/8 | bound=ALL (from,to) pairs, one concrete factor
-/// K: asserts=result = round_half_away((8*from + 13*(to-from))/8) whenever that fits i16 (oracle in i32); fast, precise, by-reference; clamped form = value at clamp01(factor); no panic | cap=900
-#[kani::proof]
-fn c12_t_i16_lerp_f32_13of8() { int_lerp_at!(i16, f32, 3, 13) }
 /// K: fns=i16::lerp_unclamped,i16::lerp_unclamped_precise,<&i16>::lerp_unclamped,<&i16>::lerp_precise (Lerp<f32>) | inst=i16, factor f32 = 16/8 | bound=ALL (from,to) pairs, one concrete factor
 /// K: asserts=result = round_half_away((8*from + 16*(to-from))/8) whenever that fits i16 (oracle in i32); fast, precise, by-reference; clamped form = value at clamp01(factor); no panic | cap=900
 #[kani::proof]
